@@ -123,8 +123,8 @@ fn check_k(s: &dyn Subject, tk: &Run, t_k: &Run, k: u32) -> Option<(&'static str
 }
 
 pub fn run(ctx: &Ctx, reg: &Registry) -> i32 {
-    let n_cases: u64 = ctx.tier.pick(30, 1200);
-    let n_rand: u64 = ctx.tier.pick(6, 32);
+    let n_cases: u64 = ctx.tier.pick(200, 3000);
+    let n_rand: u64 = ctx.tier.pick(8, 32);
     let acc = ctx.par(|shard, n| {
         let mut acc = Acc::new();
         for (si, s) in reg.subjects.iter().enumerate() {
